@@ -48,12 +48,74 @@ func runC05(e *Env) {
 	c04Handlers(e, s)
 }
 
-func isCanceledCall(v ssa.Value) bool { return calleeIs(v, ".Scheduler).isCanceled") }
+// isCanceledCall: a call of the predicate that reads the scheduler's cancel
+// flag (by what it reads; the name is a fallback for bodies that are not loaded).
+func isCanceledCall(v ssa.Value) bool {
+	c, ok := ir.Resolve(v).(*ssa.Call)
+	if !ok {
+		return false
+	}
+	f := c.Call.StaticCallee()
+	if f == nil {
+		return false
+	}
+	if f.Blocks != nil && f.Signature.Results().Len() == 1 && f.Signature.Results().At(0).Type().String() == "bool" {
+		for _, b := range f.Blocks {
+			for _, in := range b.Instrs {
+				if fa, ok := in.(*ssa.FieldAddr); ok && ir.FieldNameOf(fa.X.Type(), fa.Field) == "canceled" && strings.HasSuffix(ir.NamedType(fa.X.Type()), ".Scheduler") {
+					// reads, does not write
+					writes := false
+					for _, ref := range *fa.Referrers() {
+						if st, isS := ref.(*ssa.Store); isS && st.Addr == ssa.Value(fa) {
+							writes = true
+						}
+						if cc, isC := ref.(ssa.CallInstruction); isC && strings.Contains(ir.CalleeName(cc.Common()), "Store") {
+							writes = true
+						}
+					}
+					if !writes {
+						return true
+					}
+				}
+			}
+		}
+	}
+	return strings.HasSuffix(ir.CalleeName(&c.Call), ".Scheduler).isCanceled")
+}
 
 func c05NoLaunchAfterCancel(e *Env, s *Sched) {
 	r := e.R
 	r.Rule("C05.no-launch-after-cancel", "DCS", "launch and exec dominated per iteration by !isCanceled()", 2)
-	// the literal must come from an If inside the innermost loop of the site
+	// launch: among its dominating conditions (call-site context included) there is a
+	// !isCanceled() that is evaluated inside the pass over the nodes - in the node loop
+	// itself or in a helper between the loop and the go statement
+	okLaunch := false
+	for _, n := range e.DCS(s.Launch) {
+		if n.Kind != "val" || n.Pol || !isCanceledCall(n.V) || n.Src.If == nil {
+			continue
+		}
+		ib := n.Src.If.Block()
+		switch {
+		case s.GateLoop != nil && ib.Parent() == s.GateFn && s.GateLoop.Blocks[ib]:
+			okLaunch = true
+		case ib.Parent() != s.GateFn && s.inLoop(ib.Parent()):
+			// in a helper of the pass (below the node loop)
+			for cur := ssa.Instruction(s.Launch); cur != nil && cur.Parent() != s.GateFn; {
+				if cur.Parent() == ib.Parent() {
+					okLaunch = true
+				}
+				us := ir.UniqueSite(cur.Parent())
+				if us == nil {
+					break
+				}
+				cur = us
+			}
+		}
+	}
+	r.Check(okLaunch, "loop: go→worker under !isCanceled() tested in the same pass over the nodes", e.InstrPos(s.Launch),
+		"a step can be launched after the stop request was accepted (cancel flag not re-tested for each node before launch)", e.FactsStr("dominating conditions: ", e.DCS(s.Launch)))
+	// worker: every call that executes the step is, in its own function, inside a loop
+	// iteration guarded by !isCanceled(), or not in a loop and guarded by it
 	inLoopLit := func(site ssa.Instruction) bool {
 		fn := site.Parent()
 		loops := ir.Loops(fn)
@@ -69,15 +131,30 @@ func c05NoLaunchAfterCancel(e *Env, s *Sched) {
 		}
 		return false
 	}
-	r.Check(inLoopLit(s.Launch), "loop: go→worker under !isCanceled() tested in the same pass over the nodes", e.InstrPos(s.Launch),
-		"a step can be launched after the stop request was accepted (cancel flag not re-tested for each node before launch)", e.FactsStr("dominating conditions: ", e.DCS(s.Launch)))
 	n := 0
-	for _, ci := range ir.CallsIn(s.Worker, func(c *ssa.CallCommon) bool {
-		return c.StaticCallee() != nil && e.ReachesRepo(c.StaticCallee(), func(x *ssa.Function) bool { return x == s.Execute })
-	}) {
-		n++
-		r.Check(inLoopLit(ci), "worker: exec under !isCanceled() tested in each iteration of the exec loop", e.InstrPos(ci),
-			"the worker can (re-)execute the step's command after the stop request was accepted: a repeating step runs one more iteration, a step whose launch raced the stop starts anyway and is never signalled", e.FactsStr("dominating conditions: ", e.DCS(ci)))
+	for _, wf := range sortedFns(s.WorkerFns) {
+		for _, ci := range ir.CallsIn(wf, func(c *ssa.CallCommon) bool {
+			return c.StaticCallee() != nil && !s.inWorker(c.StaticCallee()) && e.ReachesRepo(c.StaticCallee(), func(x *ssa.Function) bool { return x == s.Execute })
+		}) {
+			n++
+			okL := false
+			for cur := ssa.Instruction(ci); cur != nil; {
+				if inLoopLit(cur) {
+					okL = true
+					break
+				}
+				if cur.Parent() == s.Worker || !s.inWorker(cur.Parent()) {
+					break
+				}
+				us := ir.UniqueSite(cur.Parent())
+				if us == nil {
+					break
+				}
+				cur = us
+			}
+			r.Check(okL, "worker: exec under !isCanceled() tested in each iteration of the exec loop", e.InstrPos(ci),
+				"the worker can (re-)execute the step's command after the stop request was accepted: a repeating step runs one more iteration, a step whose launch raced the stop starts anyway and is never signalled", e.FactsStr("dominating conditions: ", e.DCS(ci)))
+		}
 	}
 	if n == 0 {
 		r.Unknown("worker: exec call", e.Pos(s.Worker.Pos()), "no call reaching Execute in the worker")
@@ -211,13 +288,22 @@ func c05SignalTable(e *Env, s *Sched) {
 	for _, k := range kills {
 		lits := e.DCS(k)
 		okRun := HasCmp(lits, s.isStatusOf(recv), token.EQL, running)
-		okCmd := HasNilCmp(lits, func(v ssa.Value) bool { return e.IsFieldRead(v, recv, "cmd") }, true)
+		// the executor the signal is forwarded to (the receiver of Kill) was tested non-nil
+		kp, kok := e.C.PathOf(k.Call.Value)
+		okCmd := HasNilCmp(lits, func(v ssa.Value) bool {
+			if SameValue(v, k.Call.Value) {
+				return true
+			}
+			vp, vok := e.C.PathOf(v)
+			return kok && vok && vp.Dotted() == kp.Dotted() && SameValue(vp.Root, kp.Root)
+		}, true)
 		r.Check(okRun && okCmd, "Node.signal: Kill under status==Running ∧ cmd!=nil", e.InstrPos(k),
 			"the signal is forwarded without checking that the step is running and has an executor", e.FactsStr("dominating conditions: ", lits))
 		// the signal argument
 		arg := k.Call.Args[0]
 		okSig := true
 		why := ""
+		var retLits []ir.NLit
 		var visit func(v ssa.Value, blk *ssa.BasicBlock, edge int, depth int)
 		visit = func(v ssa.Value, blk *ssa.BasicBlock, edge int, depth int) {
 			v = ir.Resolve(v)
@@ -236,18 +322,40 @@ func c05SignalTable(e *Env, s *Sched) {
 				visit(x.X, blk, edge, depth)
 				return
 			case *ssa.Call:
+				// the choice extracted into a helper of this function: its return values, each under its own conditions
+				if h := x.Call.StaticCallee(); h != nil && e.P.Funcs[h] && ir.UniqueSite(h) != nil && depth < 4 {
+					for _, hb := range h.Blocks {
+						for _, in := range hb.Instrs {
+							if rt, isR := in.(*ssa.Return); isR && len(rt.Results) == 1 && e.Facts(h).Reachable(hb) {
+								for _, rv := range RetVals(rt, 0) {
+									if ph, isPhi := ir.Resolve(rv).(*ssa.Phi); isPhi {
+										visit(ph, nil, 0, depth+1)
+									} else {
+										retLits = e.DCS(rt)
+										visit(rv, nil, -1, depth+1)
+										retLits = nil
+									}
+								}
+							}
+						}
+					}
+					return
+				}
 				if ir.IsCallTo(&x.Call, "golang.org/x/sys/unix.SignalNum") {
 					if !e.IsFieldRead(x.Call.Args[0], recv, "Step.SignalOnStop") {
 						okSig, why = false, "the override signal is not taken from the step's signalOnStop"
 						return
 					}
 					var el []ir.NLit
-					if blk != nil {
+					switch {
+					case blk != nil:
 						el = e.DCSPhiEdge(blk, edge)
-					} else {
+					case retLits != nil:
+						el = retLits
+					default:
 						el = e.DCS(x)
 					}
-					okA := HasVal(el, func(y ssa.Value) bool { return ir.Resolve(y) == allowParam }, true)
+					okA := HasVal(el, func(y ssa.Value) bool { return SameValue(y, allowParam) }, true)
 					okS := false
 					for _, l := range el {
 						if l.Kind == "cmp" && l.Op == token.NEQ && e.IsFieldRead(l.X, recv, "Step.SignalOnStop") {
@@ -262,7 +370,7 @@ func c05SignalTable(e *Env, s *Sched) {
 					return
 				}
 			}
-			if v == sigParam {
+			if SameValue(v, sigParam) {
 				return
 			}
 			okSig, why = false, "the signal forwarded is neither the requested one nor the step's signalOnStop: "+e.C.Render(v)
@@ -364,27 +472,51 @@ func c05AgentEscalation(e *Env, s *Sched) {
 		return ok && ex.Tuple == ssa.Value(sel) && ex.Index == 0
 	}
 	nKill := 0
-	for _, f := range ir.WithClosures(fn) {
+	// Agent.signal, the helpers it is made of (virtual inlining view) and their closures
+	var parts []*ssa.Function
+	seenPart := map[*ssa.Function]bool{}
+	for _, g := range sortedFns(e.inlinedSet(fn, nil)) {
+		for _, h := range ir.WithClosures(g) {
+			if !seenPart[h] {
+				seenPart[h] = true
+				parts = append(parts, h)
+			}
+		}
+	}
+	inGoClosure := func(f *ssa.Function) bool {
+		for g := f; g != nil && g.Parent() != nil; g = g.Parent() {
+			for _, b := range g.Parent().Blocks {
+				for _, in := range b.Instrs {
+					if gi, ok := in.(*ssa.Go); ok && gi.Call.StaticCallee() == g {
+						return true
+					}
+				}
+			}
+		}
+		return false
+	}
+	for _, f := range parts {
 		for _, ci := range ir.CallsIn(f, func(c *ssa.CallCommon) bool { return c.StaticCallee() == schedSignal }) {
 			args := ci.Common().Args // sc, g, sig, done, allowOverride
 			if len(args) != 5 {
 				continue
 			}
 			lits := e.DCS(ci)
-			inTimeout := f == fn && HasCmp(lits, isSelIdx, token.EQL, int64(timeoutCase))
+			async := inGoClosure(f)
+			inTimeout := !async && HasCmp(lits, isSelIdx, token.EQL, int64(timeoutCase))
 			sigConst := signalConst(args[2])
 			allow, allowIsConst := ir.ConstBool(args[4])
 			if inTimeout {
 				nKill++
 				r.Check(sigConst == 9 && allowIsConst && !allow, "Agent.signal: timeout case sends SIGKILL with allowOverride=false", e.InstrPos(ci),
 					sprintf("after MaxCleanUpTime the agent does not force-kill: signal const=%d allowOverride=%s", sigConst, e.C.Render(args[4])))
-			} else if f == fn {
+			} else if !async {
 				// re-send: same signal, no override
-				r.Check(ir.Resolve(args[2]) == ir.Resolve(fn.Params[1]) && allowIsConst && !allow, "Agent.signal: periodic re-send of the requested signal without override", e.InstrPos(ci),
+				r.Check(SameValue(args[2], fn.Params[1]) && allowIsConst && !allow, "Agent.signal: periodic re-send of the requested signal without override", e.InstrPos(ci),
 					"the periodic re-send does not forward the requested signal (or allows override)")
 			} else {
 				// first send in the goroutine: requested signal and allowOverride parameter
-				r.Check(ir.Resolve(args[2]) == ir.Resolve(fn.Params[1]) && ir.Resolve(args[4]) == ir.Resolve(fn.Params[2]) && !ir.IsNilConst(args[3]), "Agent.signal: first send forwards (sig, allowOverride) and waits via done", e.InstrPos(ci),
+				r.Check(SameValue(args[2], fn.Params[1]) && SameValue(args[4], fn.Params[2]) && !ir.IsNilConst(args[3]), "Agent.signal: first send forwards (sig, allowOverride) and waits via done", e.InstrPos(ci),
 					"the first fan-out does not forward the requested signal / override flag or does not wait for the graph to stop")
 			}
 		}
@@ -393,13 +525,21 @@ func c05AgentEscalation(e *Env, s *Sched) {
 		r.Bad("Agent.signal: timeout case sends SIGKILL with allowOverride=false", e.Pos(fn.Pos()), sprintf("found %d Signal calls in the MaxCleanUpTime case", nKill))
 	}
 	// callers of Agent.signal
+	httpSet := map[*ssa.Function]bool{}
+	if hh := e.FnQuiet("internal/agent", "(*Agent).HandleHTTP"); hh != nil {
+		for g := range e.inlinedSet(hh, nil) {
+			for _, h := range ir.WithClosures(g) {
+				httpSet[h] = true
+			}
+		}
+	}
 	for _, ci := range e.StaticCallSites(fn) {
 		args := ci.Common().Args
 		host := ShortFn(rootFn(ci.Parent()))
 		sc := signalConst(args[1])
 		allow, isC := ir.ConstBool(args[2])
 		switch {
-		case strings.HasSuffix(host, ".HandleHTTP"):
+		case strings.HasSuffix(host, ".HandleHTTP") || httpSet[ci.Parent()]:
 			r.Check(sc == 15 && isC && allow, "HandleHTTP /stop: signal(SIGTERM, allowOverride=true)", e.InstrPos(ci),
 				"the stop request does not send SIGTERM with the step's signalOnStop override allowed")
 		default:
@@ -732,64 +872,153 @@ func paramIndex(p *ssa.Parameter) int {
 func c05TimeoutCtx(e *Env, s *Sched) {
 	r := e.R
 	r.Rule("C05.timeout-ctx", "VF", "exec context derives from WithTimeout(ctx, sc.timeout) under timeout>0; executors use CommandContext", 3)
-	// in the loop function: a store into the ctx cell of extract#0 of context.WithTimeout(_, sc.timeout) under timeout > 0
+	// in the scheduling function (or a helper of it): extract#0 of context.WithTimeout(_, sc.timeout) under timeout > 0
+	var deadlineCtx *ssa.Extract
 	var cell ssa.Value
 	okStore := false
-	for _, b := range s.Loop.Blocks {
-		for _, in := range b.Instrs {
-			st, ok := in.(*ssa.Store)
-			if !ok {
+	for _, lf := range sortedFns(s.LoopFns) {
+		for _, ci := range ir.CallsIn(lf, func(c *ssa.CallCommon) bool { return ir.IsCallTo(c, "context.WithTimeout") }) {
+			c, isC := ci.(*ssa.Call)
+			if !isC || !e.IsFieldRead(c.Call.Args[1], nil, "timeout") {
 				continue
 			}
-			ex, ok := st.Val.(*ssa.Extract)
-			if !ok || ex.Index != 0 {
-				continue
-			}
-			c, ok := ex.Tuple.(*ssa.Call)
-			if !ok || !ir.IsCallTo(&c.Call, "context.WithTimeout") {
-				continue
-			}
-			if !e.IsFieldRead(c.Call.Args[1], nil, "timeout") {
-				continue
-			}
-			lits := e.DCS(st)
 			pos := false
-			for _, l := range lits {
+			for _, l := range e.DCS(c) {
 				if l.Kind == "cmp" && l.Op == token.LSS && e.IsFieldRead(l.Y, nil, "timeout") {
 					if k, ok := ir.ConstInt(l.X); ok && k == 0 {
 						pos = true
 					}
 				}
 			}
-			if pos {
-				okStore = true
-				cell = st.Addr
+			if !pos {
+				continue
 			}
-		}
-	}
-	r.Check(okStore, "loop: ctx = context.WithTimeout(ctx, sc.timeout) under timeout>0", e.Pos(s.Loop.Pos()),
-		"the run's timeout is not turned into a context deadline")
-	// the worker's exec call uses a load of that cell
-	for _, ci := range ir.CallsIn(s.Worker, func(c *ssa.CallCommon) bool {
-		return c.StaticCallee() != nil && e.ReachesRepo(c.StaticCallee(), func(x *ssa.Function) bool { return x == s.Execute })
-	}) {
-		ok := false
-		for _, a := range ci.Common().Args {
-			if u, isU := a.(*ssa.UnOp); isU && u.Op == token.MUL && cell != nil {
-				if fv, isFV := u.X.(*ssa.FreeVar); isFV {
-					// binding of the free var at the closure creation
-					if mc, isMC := s.Launch.Call.Value.(*ssa.MakeClosure); isMC {
-						for i, v := range s.Worker.FreeVars {
-							if v == fv && mc.Bindings[i] == cell {
-								ok = true
-							}
+			for _, ref := range *c.Referrers() {
+				if ex, isE := ref.(*ssa.Extract); isE && ex.Index == 0 {
+					deadlineCtx = ex
+					okStore = true
+					for _, r2 := range *ex.Referrers() {
+						if st, isS := r2.(*ssa.Store); isS {
+							cell = st.Addr
 						}
 					}
 				}
 			}
 		}
-		r.Check(ok, "worker: exec receives the deadline-carrying ctx variable", e.InstrPos(ci),
-			"the worker executes the step with a context that does not carry the run's deadline")
+	}
+	r.Check(okStore, "loop: ctx = context.WithTimeout(ctx, sc.timeout) under timeout>0", e.Pos(s.Loop.Pos()),
+		"the run's timeout is not turned into a context deadline")
+	// the context the step is executed with derives from that deadline context: through
+	// the cell it is stored in, closure bindings, parameters of the loop's / worker's
+	// helpers and the go statement's arguments
+	var derives func(v ssa.Value, d int) bool
+	derives = func(v ssa.Value, d int) bool {
+		if d > 12 || v == nil || deadlineCtx == nil {
+			return false
+		}
+		switch x := v.(type) {
+		case *ssa.Extract:
+			if x == deadlineCtx {
+				return true
+			}
+			// a result of a repository helper: what the helper returns at that position
+			if c, isC := x.Tuple.(*ssa.Call); isC && c.Call.StaticCallee() != nil && e.P.Funcs[c.Call.StaticCallee()] {
+				for _, b := range c.Call.StaticCallee().Blocks {
+					for _, in := range b.Instrs {
+						if rt, isR := in.(*ssa.Return); isR && x.Index < len(rt.Results) {
+							for _, rv := range RetVals(rt, x.Index) {
+								if derives(rv, d+1) {
+									return true
+								}
+							}
+						}
+					}
+				}
+			}
+			return false
+		case *ssa.Phi:
+			for _, ed := range x.Edges {
+				if derives(ed, d+1) {
+					return true
+				}
+			}
+		case *ssa.UnOp:
+			if x.Op == token.MUL {
+				if cell != nil && x.X == cell {
+					return true
+				}
+				if fv, isFV := x.X.(*ssa.FreeVar); isFV {
+					return derives(fv, d+1)
+				}
+				for _, st := range ir.StoresTo(x.X) {
+					if derives(st, d+1) {
+						return true
+					}
+				}
+			}
+		case *ssa.FreeVar:
+			fn := x.Parent()
+			for i, fv := range fn.FreeVars {
+				if fv != x {
+					continue
+				}
+				for _, f := range e.RepoFuncsSorted() {
+					for _, b := range f.Blocks {
+						for _, in := range b.Instrs {
+							if mc, isMC := in.(*ssa.MakeClosure); isMC && mc.Fn == ssa.Value(fn) && i < len(mc.Bindings) {
+								if mc.Bindings[i] == cell && cell != nil {
+									return true
+								}
+								if derives(mc.Bindings[i], d+1) {
+									return true
+								}
+							}
+						}
+					}
+				}
+			}
+		case *ssa.Parameter:
+			sites := e.StaticCallSites(x.Parent())
+			idx := paramIndex(x)
+			for _, cs := range sites {
+				if idx >= 0 && idx < len(cs.Common().Args) && derives(cs.Common().Args[idx], d+1) {
+					return true
+				}
+			}
+		case *ssa.Alloc:
+			if cell != nil && x == cell {
+				return true
+			}
+			for _, st := range ir.StoresTo(x) {
+				if derives(st, d+1) {
+					return true
+				}
+			}
+		case *ssa.Call:
+			// context decorators keep the deadline: context.WithValue / WithCancel(parent) and repository wrappers
+			if ir.IsCallTo(&x.Call, "context.WithValue", "context.WithCancel") || (x.Call.StaticCallee() != nil && e.P.Funcs[x.Call.StaticCallee()]) {
+				for _, a := range x.Call.Args {
+					if strings.HasSuffix(ir.NamedType(a.Type()), "context.Context") && derives(a, d+1) {
+						return true
+					}
+				}
+			}
+		}
+		return false
+	}
+	for _, wf := range sortedFns(s.WorkerFns) {
+		for _, ci := range ir.CallsIn(wf, func(c *ssa.CallCommon) bool {
+			return c.StaticCallee() != nil && !s.inWorker(c.StaticCallee()) && e.ReachesRepo(c.StaticCallee(), func(x *ssa.Function) bool { return x == s.Execute })
+		}) {
+			ok := false
+			for _, a := range ci.Common().Args {
+				if strings.HasSuffix(ir.NamedType(a.Type()), "context.Context") && derives(a, 0) {
+					ok = true
+				}
+			}
+			r.Check(ok, "worker: exec receives the deadline-carrying ctx variable", e.InstrPos(ci),
+				"the worker executes the step with a context that does not carry the run's deadline")
+		}
 	}
 	// executors with a negative-pid Kill build their command with exec.CommandContext(ctx param, ...)
 	sp := e.P.Pkg("internal/dag/executor")
